@@ -29,7 +29,8 @@ RULE = ("every wrapper class discovered by inspect in pypika.terms/functions/ana
         "bounds from {None,0,1,2,10,10^9}) drawn by the seeded rng in the quick tier and enumerated completely for the "
         "window classes in the thorough tier; one complete frame block (2 kinds x (13 single + 169 BETWEEN) bounds) "
         "[exhaustive over frame shapes x bound set: true]; random Function/CustomFunction calls with 0-6 arguments; "
-        "malformed stream: unsupported clause methods, second frame, filter() without criteria, CustomFunction arity "
+        "malformed stream: unsupported clause methods, second frame, filter() without criteria or with only EmptyCriterion "
+        "arguments, frames without over(), CustomFunction arity "
         "mismatch, schema= on classes that do not take it. A case is non-trivial when it has at least one argument "
         "and at least one optional clause; distinct by structural hash.")
 TRUSTED = [
@@ -387,8 +388,14 @@ def crit_atoms():
     return [f("fa") == 1, f("fb") > 2, f("fc").isnull(), f("fd").between(1, 5), f("fe").like("x%"), f("ff") != "q"]
 
 
+def crit_obj(i):
+    """index -1 is an EmptyCriterion (e.g. a dynamic Criterion.all([]))"""
+    from pypika import EmptyCriterion
+    return EmptyCriterion() if i < 0 else crit_atoms()[i]
+
+
 def crit_text(i):
-    return crit_atoms()[i].get_sql(**KW)
+    return None if i < 0 else crit_atoms()[i].get_sql(**KW)
 
 
 def win_term(spec):
@@ -438,7 +445,7 @@ def build(case):
         if k == "distinct":
             w = w.distinct()
         elif k == "filter":
-            w = w.filter(*[crit_atoms()[i] for i in op[1]])
+            w = w.filter(*[crit_obj(i) for i in op[1]])
         elif k == "over":
             w = w.over(*[win_term(t) for t in op[1]])
         elif k == "orderby":
@@ -488,7 +495,7 @@ def op_coq(op):
     if k == "distinct":
         return "ODistinct"
     if k == "filter":
-        return "(OFilter %s)" % L([S(crit_text(i)) for i in op[1]])
+        return "(OFilter %s)" % L([OS(crit_text(i)) for i in op[1]])
     if k == "over":
         return "(OOver %s)" % L([S(win_text(t)) for t in op[1]])
     if k == "orderby":
@@ -578,9 +585,12 @@ def clause_ops(rng, e, flags):
         ops.append(["ignore_nulls"])
     if flags.get("filter"):
         n = rng.choice([1, 1, 2, 2, 3])
-        ops.append(["filter", rng.sample(range(6), n)])
+        cs = rng.sample(range(6), n)
+        if rng.random() < 0.2:
+            cs.insert(rng.randrange(len(cs) + 1), -1)               # an EmptyCriterion among the criteria
+        ops.append(["filter", cs])
         if rng.random() < 0.25:
-            ops.append(["filter", [rng.randrange(6)]])
+            ops.append(["filter", rng.choice([[rng.randrange(6)], [], [-1]])])
     if flags.get("over"):
         n = rng.choice([0, 1, 1, 2, 2])
         ops.append(["over", rand_win_terms(rng, n, 0)])
@@ -755,7 +765,7 @@ def malformed_cases(rng, n):
         elif r < 0.5 and e["frame"]:
             c["ops"] = [["over", []], rand_frame(rng), rand_frame(rng)]
         elif r < 0.7 and e["agg"]:
-            c["ops"] = [["filter", []]] + ([["over", []]] if e["analytic"] and rng.random() < 0.5 else [])
+            c["ops"] = [["filter", rng.choice([[], [-1], [-1, -1]])]] + ([["over", []]] if e["analytic"] and rng.random() < 0.5 else [])
         elif r < 0.8 and e["frame"]:
             c["ops"] = [rand_frame(rng)]                           # frame without over()/orderby()
         elif r < 0.9 and e["cls"] != "CustomFunction" and (e["schema"] or not signature_info(find_class(e["module"], e["cls"]))[5]):
@@ -783,12 +793,15 @@ def gen_cases(rng, tier):
 def corpus():
     s0 = [["field", 0]]
     return [
-        # known finding: filter() without criteria cannot render
+        # fixed (9b8ab76, b46d576): filter() without criteria / with only empty criteria could not render (TypeError)
         {"mod": "pypika.functions", "cls": "Sum", "args": s0, "ops": [["filter", []]], "ro": {}},
         {"mod": "pypika.analytics", "cls": "Sum", "args": s0, "ops": [["filter", []], ["over", []]], "ro": {}},
-        # known finding: a frame without over()/orderby() is dropped
+        {"mod": "pypika.functions", "cls": "Sum", "args": s0, "ops": [["filter", [-1]]], "ro": {}},
+        {"mod": "pypika.functions", "cls": "Count", "args": s0, "ops": [["filter", [-1, 1, -1]], ["filter", [-1, -1]], ["filter", [0]]], "ro": {}},
+        # fixed (356e88f): a frame without over()/orderby() was dropped
         {"mod": "pypika.analytics", "cls": "Sum", "args": s0, "ops": [["rows", ["prec", 3], ["foll", None]]], "ro": {}},
-        # known finding: CustomFunction without declared params ignores its call arguments
+        {"mod": "pypika.analytics", "cls": "Max", "args": s0, "ops": [["range", ["cur"], None], ["filter", [2]]], "ro": {}},
+        # fixed (b2a2b7a): CustomFunction without declared params ignored its call arguments
         {"mod": "pypika.terms", "cls": "CustomFunction", "name": "CF", "params": None, "args": [["field", 0], ["field", 1]],
          "ops": [], "ro": {}},
         # fixed defect (5862a90): bound 0
@@ -928,7 +941,10 @@ def _expect(case):
         elif k == "ignore_nulls":
             ex["ignore_nulls"] = True
         elif k == "filter":
-            ex["filters"] = (ex["filters"] or []) + [crit_text(i) for i in op[1]]
+            real = [crit_text(i) for i in op[1] if i >= 0]
+            ex["filter_calls"] = ex.get("filter_calls", []) + [list(op[1])]
+            if real:                      # empty criteria are neutral; a call without any real criterion asks for nothing
+                ex["filters"] = (ex["filters"] or []) + real
         elif k == "over":
             ex["over"] = True
             ex["partition"] += [win_text(t) for t in op[1]]
@@ -936,6 +952,7 @@ def _expect(case):
             ex["over"] = True
             ex["order"] += [(win_text(t), None if op[2] is None else op[2].upper()) for t in op[1]]
         elif k in ("rows", "range"):
+            ex["over"] = True             # a frame is part of the OVER clause: asking for one asks for OVER(...)
             ex["frames"] += 1
             if ex["frame"] is None:
                 ex["frame"] = (k.upper(), op[1], op[2])
@@ -1003,8 +1020,10 @@ def oracle(case, outcome):
         if want_exc == got:
             return []
         ex = _expect(case)
-        if got == "TypeError" and ex["filters"] == []:
-            viol("filter", "no-criteria-TypeError", "filter() without criteria cannot be rendered (%s)" % outcome.get("msg", ""),
+        calls = ex.get("filter_calls", [])
+        if got == "TypeError" and ex["filters"] is None and calls:
+            what = "no-criteria-TypeError" if all(c == [] for c in calls) else "empty-criterion-TypeError"
+            viol("filter", what, "filter() without a non-empty criterion cannot be rendered (%s)" % outcome.get("msg", ""),
                  owner="AggregateFunction")
         else:
             viol("render", "exception:" + got, "raises %s: %s" % (got, outcome.get("msg", "")))
@@ -1103,9 +1122,6 @@ def oracle(case, outcome):
         viol("ignore_nulls", "outside-parentheses", "IGNORE NULLS outside the argument list")
     # ---- FILTER before OVER -------------------------------------------------------------------------
     if ex["filters"] is not None:
-        if ex["filters"] == []:
-            viol("filter", "no-criteria-rendered", "filter() without criteria rendered %r" % rest)
-            return V
         head = " FILTER(WHERE "
         if not rest.startswith(head):
             viol("filter", "missing-or-misplaced", "FILTER(WHERE ...) does not follow the argument list directly")
